@@ -12,6 +12,10 @@ use d_common::*;
 use verif_harness::*;
 
 struct C06 {
+    /// generator only (S10): number of user namespaces of the next squares (None = default 1..9) and the
+    /// number of queried namespaces kept per square (None = all)
+    users: Option<usize>,
+    qcap: Option<usize>,
     eds: Option<ExtendedDataSquare>,
     dah: Option<DataAvailabilityHeader>,
 }
@@ -129,9 +133,9 @@ fn ns_plus(ns: &Namespace, delta: i32) -> Option<Namespace> {
 
 impl C06 {
     fn gen_for_square(&mut self, rng: &mut Rng, w: usize, out: &mut Emitter) {
-        let (eds, nss) = gen_eds(rng, w);
+        let (eds, nss) = gen_eds_users(rng, w, self.users);
         let dah = DataAvailabilityHeader::from_eds(&eds);
-        out.op(eds_line(&eds), &format!("eds/w{w}"), true);
+        out.op(eds_line(&eds), &format!("eds/w{w}{}", if self.users.is_some() { "-many-ns" } else { "" }), true);
         // namespaces to query
         let mut queries: Vec<(Namespace, &str)> = nss.iter().map(|n| (*n, "present")).collect();
         for n in &nss {
@@ -151,6 +155,11 @@ impl C06 {
         }
         queries.push((Namespace::PARITY_SHARE, "parity"));
         queries.push((user_ns(rng), "random"));
+        if let Some(cap) = self.qcap {
+            // many-namespace squares: a random sample of the queries (every query costs ~50 ops)
+            rng.shuffle(&mut queries);
+            queries.truncate(cap);
+        }
         let mut all_rows: Vec<(Namespace, Vec<RowSpec>)> = vec![];
         for (ns, tag) in &queries {
             out.op(format!("get ns={}", hx(ns.as_bytes())), &format!("get/{tag}"), true);
@@ -385,7 +394,9 @@ impl Prop for C06 {
          foreign shares with and without range adjustment, shifted ranges, ignore_max_ns flipped, unordered/random/missing siblings, \
          forged absence proofs for present namespaces, relabelled proofs, absence proofs with altered/missing leaf or too few \
          siblings, wrong/out-of-range row index; wire-level from_raw+verify with missing proof, short share, mixed namespaces, \
-         short node, truncated i64 indices. Non-trivial = every case; distinct = distinct (op, result) lines."
+         short node, truncated i64 indices. S10 size-threshold stress: squares of width 8, 16, 32, 64 (thorough also 128) with about 3 user \
+         namespaces per 4 ODS shares (up to w/2 distinct namespaces in one row, namespaces straddling row ends; tags eds/wN-many-ns; a random sample \
+         of 6..14 of the namespaces / absent neighbours queried with the full case set). Non-trivial = every case; distinct = distinct (op, result) lines."
     }
     fn gen_ops(&mut self, rng: &mut Rng, tier: Tier, out: &mut Emitter) {
         let plan: Vec<(usize, usize)> = if tier == Tier::Thorough {
@@ -398,6 +409,21 @@ impl Prop for C06 {
                 self.gen_for_square(rng, w, out);
             }
         }
+        // S10 size-threshold stress: squares with about 3 user namespaces per 4 ODS shares — up to w/2 distinct namespaces
+        // in ONE row, namespaces of 1..3 shares straddling row ends (before: 1..9 user namespaces in the whole square, so a
+        // row held at most a handful).  A sample of the namespaces is queried (each costs ~50 ops).
+        let many: Vec<(usize, usize, usize)> =
+            if tier == Tier::Thorough { vec![(8, 4, 30), (16, 4, 30), (32, 3, 30), (64, 2, 24), (128, 1, 12)] } else { vec![(8, 1, 10), (16, 1, 14), (32, 1, 12), (64, 1, 6)] };
+        for (w, n, cap) in many {
+            let k = w / 2;
+            self.users = Some(k * k * 3 / 4);
+            self.qcap = Some(cap);
+            for _ in 0..n {
+                self.gen_for_square(rng, w, out);
+            }
+        }
+        self.users = None;
+        self.qcap = None;
         // size bound of `NamespaceData::verify` (added after tools/coverage.sh showed the
         // `rows.len() > u16::MAX` arm was never taken): one row more than a u16 can count
         // (NamespaceDataTooLarge) and exactly u16::MAX rows (passes the bound, fails the row count),
@@ -511,5 +537,5 @@ impl Prop for C06 {
 }
 
 fn main() {
-    main_for(C06 { eds: None, dah: None });
+    main_for(C06 { users: None, qcap: None, eds: None, dah: None });
 }
